@@ -3,7 +3,7 @@ from sx.harness import Case
 
 PROPERTY = "C44"
 FUNCTIONS = ["paramiko.auth_strategy.AuthStrategy.authenticate"]
-STUBS = ["AuthSource.authenticate: returns a token or raises one of 4 exception classes, chosen by a solver variable per source",
+STUBS = ["AuthSource.authenticate: returns a token or raises one of 6 exception classes (two of them carrying the server's allowed-types list), chosen by a solver variable per source",
          "transport: opaque token"]
 ASSUMPTIONS = ["sources raise Exception subclasses (BaseException such as KeyboardInterrupt is not a failure outcome)"]
 EXPLANATION = "Each source's outcome is a solver-chosen value; the number of sources is a solver-chosen length."
@@ -13,15 +13,28 @@ class _Boom(Exception):
     pass
 
 
-OUTCOMES = ["ok", "ValueError", "SSHException", "AuthenticationException", "custom"]
+OUTCOMES = ["ok", "ValueError", "SSHException", "AuthenticationException", "custom", "BadAuthenticationType", "PartialAuthentication"]
 
 
 def strat_case(maxn):
     def fn(ctx):
         from paramiko.auth_strategy import AuthStrategy, AuthFailure, AuthSource
         from paramiko.ssh_exception import SSHException, AuthenticationException
+        from paramiko.ssh_exception import BadAuthenticationType, PartialAuthentication
         excs = {"ValueError": ValueError, "SSHException": SSHException,
                 "AuthenticationException": AuthenticationException, "custom": _Boom}
+        raised_objs = {}
+
+        def make_exc(kind, i):
+            # the two protocol-level failures carry the server's list of methods that may continue
+            if kind == "BadAuthenticationType":
+                e = BadAuthenticationType("fail %d" % i, ["publickey", "password"])
+            elif kind == "PartialAuthentication":
+                e = PartialAuthentication(["password"])
+            else:
+                e = excs[kind]("fail %d" % i)
+            raised_objs[i] = e
+            return e
         n = ctx.choice("n_sources", range(maxn + 1))
         outcomes = [ctx.choice("outcome%d" % i, OUTCOMES) for i in range(n)]
         calls = []
@@ -35,7 +48,7 @@ def strat_case(maxn):
                 calls.append((self.i, transport))
                 if outcomes[self.i] == "ok":
                     return ("result", self.i)
-                raise excs[outcomes[self.i]]("fail %d" % self.i)
+                raise make_exc(outcomes[self.i], self.i)
         srcs = [Src(i) for i in range(n)]
 
         class Strat(AuthStrategy):
@@ -60,7 +73,7 @@ def strat_case(maxn):
             if outcomes[i] == "ok":
                 ok = ok and sr.result == ("result", i)
             else:
-                ok = ok and type(sr.result) is excs[outcomes[i]] and sr.result.args == ("fail %d" % i,)
+                ok = ok and sr.result is raised_objs[i]          # the error the source raised, itself
         ctx.prove(ok, "each-outcome-reported")
     return Case("authenticate<=%d" % maxn, fn,
                 ["raises-AuthFailure-iff-no-success", "sources-tried-in-order-stop-at-first-success",
@@ -69,4 +82,4 @@ def strat_case(maxn):
 
 
 def cases(tier):
-    return [strat_case(4 if tier == "quick" else 6)]
+    return [strat_case(4 if tier == "quick" else 5)]
